@@ -12,10 +12,16 @@
      [cpc_run lgk cs] is CpcSketch::new(lgk) followed by row_col_update for every pair (the public
      update() is row_col_update after hashing, [row_col_of_hash]).  Every debug_assert!/assert!/expect/
      index of the crate on this path is a [Stuck] outcome of the model.
-   * Domain: lg_k in 4..=26 and  8 C < 475 K  (C < 59.375 K of the 64 K possible coupons): beyond it the
-     correct window offset exceeds 56 and the crate (like Java/C++) asserts.  Hashing cannot get there.
+   * Domain: lg_k in 4..=26;  8 C < 475 K  (C < 59.375 K of the 64 K possible coupons: beyond it the correct
+     window offset exceeds 56 and the crate, like Java/C++, asserts);  and [cpc_fits lgk cs]: after every pair
+     the surprising values the matrix needs (all coupons while sparse; afterwards the zeros before and the ones
+     after the window, [load], at the offset before the pair and at the correct offset after it) fit the
+     surprising-value table, whose capacity is 3/4 * 2^min(26, lg_k + 5) pairs (24 K for lg_k <= 21):
+     PairTable::rebuild asserts beyond it.  The limit is modelled ([tbl_full], Stuck in tbl_insert / from_matrix);
+     c05_table_capacity_needed shows a crafted stream inside 8C < 475K that hits it (the crate panics there too).
+     Hashing reaches neither limit (surprising values are rare).
    * Not verified (trusted, see tools/props/C05.py): PairTable's slot layout; the model keeps the
-     surprising values as a duplicate-free list (a finite set). *)
+     surprising values as a duplicate-free list (a finite set) with the table's capacity. *)
 From DS Require Import Base.Prelude Model.Cpc Proofs.CpcBits Proofs.CpcSpec Proofs.CpcProofs Proofs.CpcInv
   Proofs.CpcStep Proofs.CpcUpdate Proofs.CpcMain.
 Open Scope N_scope.
@@ -30,7 +36,7 @@ Open Scope N_scope.
        (so the speed shortcut in row_col_update never drops a new coupon),
      - validate() returns true. *)
 Theorem c05_cpc_refines : forall lgk cs,
-  4 <= lgk <= 26 -> Forall (valid lgk) cs -> 8 * distinct cs < 475 * 2 ^ lgk ->
+  4 <= lgk <= 26 -> Forall (valid lgk) cs -> 8 * distinct cs < 475 * 2 ^ lgk -> cpc_fits lgk cs ->
   exists s, cpc_run lgk cs = Ok s /\
     build_bit_matrix s = Ok (rows_of (spec cs) (Knat lgk)) /\
     c_num s = pop_rows (spec cs) (Knat lgk) /\
@@ -50,8 +56,9 @@ Proof. exact cpc_refines. Qed.
 Theorem c05_from_matrix_abs : forall lgk m off C fic0 mg kxp hip,
   length m = Knat lgk -> Forall (fun w => w < 2 ^ 64) m -> off <= 56 -> C <> 0 ->
   (forall r c, r < 2 ^ lgk -> c < 64 -> N.testbit (nthN m r 0) c = true -> r * 64 + c <> U32MAX) ->
+  tbl_full lgk (load lgk (fun r => nthN m r 0) true off) = false ->
   exists win tab fic,
-    from_matrix 255 255 off m = Ok (win, tab, fic) /\
+    from_matrix lgk 255 255 off m = Ok (win, tab, fic) /\
     build_bit_matrix (mkCpc lgk fic0 C (Some tab) off win mg kxp hip) = Ok m /\
     fic <= off /\ (forall r c, r < 2 ^ lgk -> c < fic -> N.testbit (nthN m r 0) c = true).
 Proof. exact from_matrix_abs. Qed.
@@ -65,6 +72,7 @@ Proof. exact move_window_literals. Qed.
    iff 8 C' >= (27 + 8 w) K; either way the offset is determine_correct_offset of the new count. *)
 Theorem c05_cpc_flavor_thresholds : forall lgk cs rc s,
   4 <= lgk <= 26 -> Forall (valid lgk) cs -> valid lgk rc -> 8 * distinct (cs ++ [rc]) < 475 * 2 ^ lgk ->
+  cpc_fits lgk (cs ++ [rc]) ->
   cpc_run lgk cs = Ok s ->
   exists s', row_col_update s rc = Ok s' /\
     (c_num s' = c_num s \/ c_num s' = c_num s + 1) /\
@@ -91,7 +99,7 @@ Proof. exact correct_offset_spec. Qed.
 (* no panic: no debug_assert!/assert!/expect/index on the update path fires, build_bit_matrix and
    validate succeed (lg_k 4..=26, unbounded arithmetic) *)
 Theorem c05_cpc_no_stuck : forall lgk cs,
-  4 <= lgk <= 26 -> Forall (valid lgk) cs -> 8 * distinct cs < 475 * 2 ^ lgk ->
+  4 <= lgk <= 26 -> Forall (valid lgk) cs -> 8 * distinct cs < 475 * 2 ^ lgk -> cpc_fits lgk cs ->
   exists s, cpc_run lgk cs = Ok s /\ (exists m, build_bit_matrix s = Ok m) /\ cpc_validate s = Ok true.
 Proof. exact cpc_no_stuck. Qed.
 
@@ -102,8 +110,21 @@ Proof. exact row_col_of_hash_valid. Qed.
 Theorem c05_cpc_update_no_stuck : forall lgk hs,
   4 <= lgk <= 26 ->
   8 * distinct (map (fun h => row_col_of_hash lgk (fst h) (snd h)) hs) < 475 * 2 ^ lgk ->
+  cpc_fits lgk (map (fun h => row_col_of_hash lgk (fst h) (snd h)) hs) ->
   exists s, cpc_run lgk (map (fun h => row_col_of_hash lgk (fst h) (snd h)) hs) = Ok s.
 Proof. exact cpc_update_no_stuck. Qed.
+
+(* the capacity hypothesis is needed: lg_k = 4, the 24 rightmost columns of every row (384 coupons, 8C = 3072 < 7600)
+   need more surprising values than a lg_k-4 table can hold; the model is Stuck exactly where the crate panics
+   (PairTable::rebuild; replayed, tools/families/cpc.py kind "overflow") *)
+Theorem c05_table_capacity_needed :
+  Forall (valid 4) overflow_stream /\ 8 * distinct overflow_stream < 475 * 2 ^ 4 /\ cpc_run 4 overflow_stream = Stuck.
+Proof. exact table_capacity_needed. Qed.
+
+(* the number of table entries of any represented state is the number of surprising values of its matrix *)
+Theorem c05_table_load : forall s M, Rep s M ->
+  N.of_nat (length (tlist s)) = load (c_lgk s) M (windowed s) (c_off s).
+Proof. exact table_load. Qed.
 
 (* the constants of the Rust function bodies the model is written over, as translated on this run *)
 Theorem c05_literals_manifest :
@@ -121,24 +142,25 @@ Theorem c05_literals_manifest :
   Gen.GenCpc.MIN_LG_K = 4%Z /\ Gen.GenCpc.MAX_LG_K = 26%Z.
 Proof. exact literals_manifest. Qed.
 
-(* non-vacuity: lg_k = 4; columns 0..5 filled except the pair (row 15, col 1), one surprising one far to
-   the right, a duplicate: three window moves (offset 3), a surprising ZERO in the early zone
-   (15*64+1 = 961 in the table), a surprising one (5*64+40 = 360), first interesting column 1 *)
+(* non-vacuity: lg_k = 4; column 0 without the pair (row 15, col 0), columns 1 and 2, two surprising ones far to the
+   right, a duplicate, part of column 3: one window move (offset 1), a surprising ZERO in the early zone
+   (15*64+0 = 960 in the table), surprising ones 5*64+40 = 360 and 7*64+9 = 457; all hypotheses of
+   c05_cpc_refines hold for this stream *)
 Definition c05_ex_colfill (cols rows : list N) : list N :=
   flat_map (fun c => map (fun r => r * 64 + c) rows) cols.
 Definition c05_ex_stream : list N :=
-  c05_ex_colfill [0] (map N.of_nat (seq 0 16)) ++ c05_ex_colfill [1] (map N.of_nat (seq 0 15)) ++
-  c05_ex_colfill [2; 3] (map N.of_nat (seq 0 16)) ++ [5 * 64 + 40; 7 * 64 + 9; 5 * 64 + 40] ++
-  c05_ex_colfill [4; 5] (map N.of_nat (seq 0 16)).
+  c05_ex_colfill [0] (map N.of_nat (seq 0 15)) ++ c05_ex_colfill [1; 2] (map N.of_nat (seq 0 16)) ++
+  [5 * 64 + 40; 7 * 64 + 9; 5 * 64 + 40] ++ c05_ex_colfill [3] (map N.of_nat (seq 0 11)).
 
 Example c05_example :
-  Forall (valid 4) c05_ex_stream /\ 8 * distinct c05_ex_stream < 475 * 2 ^ 4 /\
-  exists s, cpc_run 4 c05_ex_stream = Ok s /\ c_num s = 97 /\ c_off s = 3 /\ c_fic s = 1 /\
-            c_table s = Some [360; 961] /\ nthN (c_win s) 7 0 = 71 /\
-            build_bit_matrix s = Ok [63; 63; 63; 63; 63; 1099511627839; 63; 575; 63; 63; 63; 63; 63; 63; 63; 61].
+  Forall (valid 4) c05_ex_stream /\ 8 * distinct c05_ex_stream < 475 * 2 ^ 4 /\ cpc_fits 4 c05_ex_stream /\
+  exists s, cpc_run 4 c05_ex_stream = Ok s /\ c_num s = 60 /\ c_off s = 1 /\ c_fic s = 0 /\
+            c_table s = Some [360; 457; 960] /\ nthN (c_win s) 7 0 = 7 /\
+            build_bit_matrix s = Ok [15; 15; 15; 15; 15; 1099511627791; 15; 527; 15; 15; 15; 7; 7; 7; 7; 6].
 Proof.
-  split; [|split].
+  split; [|split; [|split]].
   - unfold valid. repeat constructor; vm_compute; congruence.
   - vm_compute. reflexivity.
+  - apply fits_streamb_sound. vm_compute. reflexivity.
   - eexists. split; [vm_compute; reflexivity|]. repeat split; vm_compute; reflexivity.
 Qed.
